@@ -43,6 +43,7 @@ type FuncInfo struct {
 	Assumes          []SpecClause
 	Ensures          []SpecClause
 	Modifies         []ast.Expr
+	DynPreserves     []ast.Expr
 	HasMod           bool
 	Decreases        []ast.Expr
 	Flags            map[string]string
@@ -322,6 +323,8 @@ func (p *Prog) readMarkerPrefix(fi *FuncInfo, info *types.Info, list []ast.Stmt,
 			case "__modifies":
 				fi.HasMod = true
 				fi.Modifies = append(fi.Modifies, call.Args...)
+			case "__dynpreserves":
+				fi.DynPreserves = append(fi.DynPreserves, call.Args...)
 			case "__ghostset":
 				fi.GhostSets = append(fi.GhostSets, ghostSet{Name: strLit(call.Args[0], info), Expr: closureExpr(call.Args[1])})
 			case "__lemma":
